@@ -34,8 +34,11 @@ type MsgJSON struct {
 
 // TxStep is a transaction as pure data.
 type TxStep struct {
-	Msgs     []MsgJSON           `json:"msgs"`
-	Signers  []simnet.SignerSpec `json:"signers"`
+	Msgs []MsgJSON `json:"msgs"`
+	// SignedMsgs, when set, are what the signers signed; Msgs replaced them afterwards with
+	// the signatures kept (an intermediary tampering with a signed transaction).
+	SignedMsgs []MsgJSON           `json:"signed_msgs,omitempty"`
+	Signers    []simnet.SignerSpec `json:"signers"`
 	Fee      string              `json:"fee,omitempty"`
 	FeePayer string              `json:"fee_payer,omitempty"`
 	Gas      uint64              `json:"gas,omitempty"`
@@ -161,7 +164,7 @@ type snapshot struct {
 func New(opt Options) (*World, error) {
 	if opt.Prop == "C12" && opt.ProbeDenoms == nil {
 		// every pool identifier is also used as a query argument, existing or not
-		opt.ProbeDenoms = []string{"a", "ab", "abc", "b", "A", "a/", "a b", "a-1", "a\x00b", "\x00", "a/b", "/", "zz"}
+		opt.ProbeDenoms = []string{"a", "ab", "abc", "b", "A", "a/", "a b", "a-1", " a", "a\t", "a\x00b", "\x00", "a/b", "/", "zz"}
 	}
 	accts := simnet.DefaultAccounts(NumAccounts)
 	var db dbm.DB = dbm.NewMemDB()
@@ -303,6 +306,8 @@ type TxObs struct {
 	Res        abci.ResponseDeliverTx
 	BuildErr   error
 	AntePassed bool
+	// Tampered: the delivered messages differ from the ones the signatures were made over.
+	Tampered bool
 	// Signed lists the bech32 addresses of accounts that produced a real signature.
 	Signed  map[string]bool
 	Pre     map[string][]simnet.KV // store dumps before
@@ -393,8 +398,28 @@ func (w *World) applyTx(ts *TxStep) error {
 		ex := authz.NewMsgExec(w.Accts[ts.Exec-1].Addr, obs.Msgs)
 		obs.Outer = []sdk.Msg{&ex}
 	}
+	var signedOuter []sdk.Msg
+	if len(ts.SignedMsgs) > 0 {
+		var sm []sdk.Msg
+		for _, m := range ts.SignedMsgs {
+			msg, err := w.DecodeMsg(m)
+			if err != nil {
+				obs.BuildErr = err
+				w.shape("tx:undecodable")
+				return nil
+			}
+			sm = append(sm, msg)
+		}
+		signedOuter = sm
+		if ts.Exec > 0 {
+			ex := authz.NewMsgExec(w.Accts[ts.Exec-1].Addr, sm)
+			signedOuter = []sdk.Msg{&ex}
+		}
+		obs.Tampered = !sameMsgList(signedOuter, obs.Outer)
+	}
 	for _, sg := range ts.Signers {
-		if !sg.Garbage {
+		// a signature made over other content stands behind nothing in this transaction
+		if !sg.Garbage && !obs.Tampered {
 			obs.Signed[w.Accts[sg.Acct].Bech] = true
 		}
 	}
@@ -409,7 +434,7 @@ func (w *World) applyTx(ts *TxStep) error {
 		_, seq, _ := w.C.AccountInfo(ctx, a.Addr)
 		obs.SeqPre = append(obs.SeqPre, seq)
 	}
-	raw, err := w.C.BuildTx(simnet.TxSpec{Msgs: obs.Outer, Signers: ts.Signers, Fee: parseCoins(ts.Fee),
+	raw, err := w.C.BuildTx(simnet.TxSpec{Msgs: obs.Outer, SignedMsgs: signedOuter, Signers: ts.Signers, Fee: parseCoins(ts.Fee),
 		FeePayer: ts.FeePayer, Gas: ts.Gas, Memo: ts.Memo})
 	if err != nil {
 		// The client-side tx builder refused (e.g. GetSigners panics on a malformed address):
@@ -449,6 +474,12 @@ func (w *World) applyTx(ts *TxStep) error {
 		w.Label("tx out of gas")
 		if obs.AntePassed {
 			w.Label("tx out of gas after the ante handler")
+		}
+	}
+	if obs.Tampered {
+		w.Label("tx content replaced after signing")
+		if obs.OK() && (w.On("C02") || w.On("C06") || w.On("C15")) {
+			return &Violation{w.Opt.Prop, fmt.Sprintf("a transaction whose messages were replaced after signing was accepted: the signatures were made over %s, the transaction carries %s", msgsString(signedOuter), msgsString(obs.Outer))}
 		}
 	}
 	if simnet.IsPanic(obs.Res.Codespace, obs.Res.Code) {
@@ -806,6 +837,35 @@ func sortedKeys[V any](m map[string]V) []string {
 // BankSend builds a plain bank send message.
 func BankSend(from, to string, coins string) sdk.Msg {
 	return &banktypes.MsgSend{FromAddress: from, ToAddress: to, Amount: parseCoins(coins)}
+}
+
+func sameMsgList(a, b []sdk.Msg) bool {
+	if len(a) != len(b) {
+		return false
+	}
+	for i := range a {
+		if sdk.MsgTypeURL(a[i]) != sdk.MsgTypeURL(b[i]) {
+			return false
+		}
+		x, err1 := a[i].(interface{ Marshal() ([]byte, error) }).Marshal()
+		y, err2 := b[i].(interface{ Marshal() ([]byte, error) }).Marshal()
+		if err1 != nil || err2 != nil || !bytes.Equal(x, y) {
+			return false
+		}
+	}
+	return true
+}
+
+func msgsString(ms []sdk.Msg) string {
+	var out []string
+	for _, m := range ms {
+		out = append(out, fmt.Sprintf("%s%v", sdk.MsgTypeURL(m), m))
+	}
+	s := strings.Join(out, " + ")
+	if len(s) > 600 {
+		s = s[:600] + "…"
+	}
+	return s
 }
 
 func vio(prop, format string, a ...interface{}) error {
